@@ -160,6 +160,7 @@ class P(b1.Plugin):
         for k, v in enumerate(td.variants):
             v.extra_json = {"dflag": v.dflag}
         noise = [t for t in ("Debug", "PartialEq") if kind != "union" and rng.random() < 0.35]
+        td.via_macro = rng.random() < 0.25          # unions too
         gen.finalize_attrs(rng, td, noise)
         td.extra_items = [self.fp_fn(td)] + ([td.from_impl] if getattr(td, "from_impl", None) else [])
         return td
